@@ -29,3 +29,139 @@ Print Assumptions C07_capture_shares_partial.
 Print Assumptions C07_store_updates_in_place.
 Print Assumptions C07_modify_writes_captured_cell.
 Print Assumptions C07_bind_local_fresh.
+
+(* ---------------------------------------------------------------------------------------------
+   Static half: WHICH names a function value captures.  The capture list the code generator attaches
+   to make_function (Compile.free_vars = the model of get_net_dependencies & co., compared with the real
+   compiler's lists on every run) is EXACTLY the set of free variables of the literal, for the
+   declarative, order-aware definition FreeE / FreeS / FreeBlock of Compile/CaptureSpec.v (written as
+   inference rules, independently of the code of fv_e / fv_s); all expressions / statements, any nesting
+   of function literals.  Proofs in Compile/CaptureSpec.v.
+   Semantic reading (Compile/CaptureSem.v), PARTIAL: for bodies of the first-order fragment (no call /
+   self-call / literal INSIDE the body; WfB also carries the two rules the compiler enforces: `modify`
+   only on a non-local, a fresh counter is not already a local) the result of calling the closure depends
+   on its captured environment only through free_vars: restricting the environment to the capture list
+   changes nothing.  Full statement (bodies with calls, needs a step-indexed relation on closure values):
+     forall fuel ps body cenv vs s, call_closure fuel (RClos ps body cenv) vs s
+        ~ call_closure fuel (RClos ps body (restrict_env (free_vars ps body) cenv)) vs s            *)
+From MS Require Import Lang.Syntax Compile.Compile Compile.ExprBase Compile.CaptureSpec Compile.CaptureSem Lang.Eval.
+
+Check fv_sound_complete : forall e bound x, In x (fv_e bound e) <-> FreeE bound e x.
+Theorem C07_fv_sound_complete : forall e bound x, In x (fv_e bound e) <-> FreeE bound e x.
+Proof. exact fv_sound_complete. Qed.
+Theorem C07_fv_s_sound_complete : forall s bound x, In x (fst (fv_s bound s)) <-> FreeS bound s x.
+Proof. exact fv_s_sound_complete. Qed.
+Theorem C07_fv_s_binds : forall s bound, snd (fv_s bound s) = binds s ++ bound.
+Proof. exact fv_s_binds. Qed.
+Theorem C07_free_vars_spec : forall ps body x, In x (free_vars ps body) <-> FreeBlock ps body x.
+Proof. exact free_vars_spec. Qed.
+Theorem C07_free_vars_NoDup : forall ps body, NoDup (free_vars ps body).
+Proof. exact free_vars_NoDup. Qed.
+Theorem C07_no_free_vars_no_captures : forall ps body,
+  free_vars ps body = [] <-> (forall x, ~ FreeBlock ps body x).
+Proof. exact no_free_vars_no_captures. Qed.
+Theorem C07_make_function_captures_spec : forall path d ps body st, exists name l,
+  fst (cexpr path d (EFn ps body) st) = [I OP_MAKE_FUNCTION (name :: l)]
+  /\ NoDup l /\ (forall x, In x l <-> FreeBlock ps body x).
+Proof. exact make_function_captures_spec. Qed.
+Theorem C07_make_function_no_captures_iff : forall path d ps body st,
+  (exists name, fst (cexpr path d (EFn ps body) st) = [I OP_MAKE_FUNCTION [name]])
+  <-> (forall x, ~ FreeBlock ps body x).
+Proof. exact make_function_no_captures_iff. Qed.
+Theorem C07_closed_literal_is_not_a_closure : forall path d ps body st,
+  (forall x, ~ FreeBlock ps body x) ->
+  exists name, strip (fst (cexpr path d (EFn ps body) st)) = [mkI OP_MAKE_FUNCTION [name]]
+    /\ decode (mkI OP_MAKE_FUNCTION [name]) = DOk (DMakeFunction name [])
+    /\ forall a g, exec_d (DMakeFunction name []) a g = SNext (set_ops a (a_ops a ++ [VFun name None])) g.
+Proof. exact closed_literal_is_not_a_closure. Qed.
+Theorem C07_open_literal_captures : forall path d ps body st x,
+  FreeBlock ps body x ->
+  exists name l, strip (fst (cexpr path d (EFn ps body) st)) = [mkI OP_MAKE_FUNCTION (name :: l)]
+    /\ In x l /\ l <> []
+    /\ decode (mkI OP_MAKE_FUNCTION (name :: l)) = DOk (DMakeFunction name l).
+Proof. exact open_literal_captures. Qed.
+(* the specification is a sane notion of "free": only the membership of x itself in `bound` matters,
+   nothing bound is free, parameters are never captured, and the other reading of a colliding counter
+   ("no new binding") gives the same set *)
+Theorem C07_FreeBlock_ext : forall l b1 b2 x, (In x b1 <-> In x b2) -> (FreeBlock b1 l x <-> FreeBlock b2 l x).
+Proof. exact FreeBlock_ext. Qed.
+Theorem C07_FreeBlock_not_bound : forall l bound x, FreeBlock bound l x -> ~ In x bound.
+Proof. exact FreeBlock_not_bound. Qed.
+Theorem C07_params_not_captured : forall ps body x, In x ps -> ~ In x (free_vars ps body).
+Proof. exact params_not_captured. Qed.
+Theorem C07_colliding_counter_no_new_binding : forall bound a b incl step c body x,
+  FreeS bound (SFrom a b incl step (Some c) true body) x <->
+    FreeE bound a x \/ FreeE bound b x \/ (x = c /\ ~ In c bound)
+    \/ FreeBlock bound body x \/ (exists e, step = Some e /\ FreeE bound e x).
+Proof. exact colliding_counter_no_new_binding. Qed.
+
+(* semantic reading, first-order bodies *)
+Theorem C07_closure_depends_only_on_free_vars_partial : forall fuel ps body cenv1 cenv2 vs s,
+  WfB ps body ->
+  (forall x, In x (free_vars ps body) -> lookup_scopes x cenv1 = lookup_scopes x cenv2) ->
+  call_closure fuel (RClos ps body cenv1) vs s = call_closure fuel (RClos ps body cenv2) vs s.
+Proof. exact closure_depends_only_on_free_vars. Qed.
+Theorem C07_capture_list_suffices_partial : forall fuel ps body cenv vs s,
+  WfB ps body ->
+  call_closure fuel (RClos ps body cenv) vs s
+  = call_closure fuel (RClos ps body (restrict_env (free_vars ps body) cenv)) vs s.
+Proof. exact capture_list_suffices. Qed.
+Theorem C07_literal_call_sees_only_free_vars_partial : forall fuel e ps body args s,
+  WfB ps body ->
+  eval (S (S fuel)) e (ECall (EFn ps body) args) s =
+    match eval_args (S fuel) e args s [] with
+    | inl (vs, s') =>
+      call_closure (S fuel)
+        (RClos ps body (restrict_env (free_vars ps body) (locals e ++ captured e))) vs s'
+    | inr r => r end.
+Proof. exact literal_call_sees_only_free_vars. Qed.
+
+Print Assumptions C07_fv_sound_complete.
+Print Assumptions C07_fv_s_sound_complete.
+Print Assumptions C07_free_vars_spec.
+Print Assumptions C07_no_free_vars_no_captures.
+Print Assumptions C07_make_function_captures_spec.
+Print Assumptions C07_make_function_no_captures_iff.
+Print Assumptions C07_closed_literal_is_not_a_closure.
+Print Assumptions C07_open_literal_captures.
+Print Assumptions C07_FreeBlock_ext.
+Print Assumptions C07_params_not_captured.
+Print Assumptions C07_colliding_counter_no_new_binding.
+Print Assumptions C07_closure_depends_only_on_free_vars_partial.
+Print Assumptions C07_capture_list_suffices_partial.
+Print Assumptions C07_literal_call_sees_only_free_vars_partial.
+
+(* non-vacuity (more in Compile/CaptureSpec.v, module CaptureExamples, and Compile/CaptureSem.v) *)
+Import CaptureExamples.
+(* fn() { print x; x = 1 } : x IS free (read before it becomes local) *)
+Example C07_ex_read_then_assign : free_vars [] [SPrint (EVar x_); SAssign x_ (EInt 1)] = [x_].
+Proof. vm_compute. reflexivity. Qed.
+(* fn() { x = 1; print x } : x is NOT free; the literal compiles to make_function with no captures *)
+Example C07_ex_assign_then_read : free_vars [] [SAssign x_ (EInt 1); SPrint (EVar x_)] = []
+  /\ forall z, ~ FreeBlock [] [SAssign x_ (EInt 1); SPrint (EVar x_)] z.
+Proof. split; [vm_compute; reflexivity|exact assign_then_read_closed]. Qed.
+(* a counter named like an outer variable is that variable (captured); a fresh one is local to the loop *)
+Example C07_ex_counter :
+  free_vars [] [SFrom (EInt 0) (EInt 3) false None (Some i_) true [SPrint (EVar i_)]] = [i_]
+  /\ free_vars [] [SFrom (EInt 0) (EInt 3) false None (Some i_) false [SPrint (EVar i_)]] = []
+  /\ free_vars [] [SFrom (EInt 0) (EInt 3) false None (Some i_) false [SPrint (EVar i_)]; SPrint (EVar i_)] = [i_].
+Proof. vm_compute. repeat split; reflexivity. Qed.
+(* fn(y) { return fn() { return fn() { return x + y } } } : x through two levels, y is a parameter *)
+Example C07_ex_two_levels : free_vars [y_] [SReturn (Some inner1)] = [x_]
+  /\ free_vars [] [SReturn (Some inner2)] = [x_; y_].
+Proof. vm_compute. split; reflexivity. Qed.
+(* fn(o) { return (o) or d } *)
+Example C07_ex_nil_or : free_vars [o_] [SReturn (Some (ENilOr (EVar o_) (EVar d_)))] = [d_].
+Proof. vm_compute. reflexivity. Qed.
+(* the emitted instructions *)
+Example C07_ex_emitted : forall path,
+  strip (fst (cexpr path 0 (EFn [] [SAssign x_ (EInt 1); SPrint (EVar x_)]) {| fid := 0; lreg := 0; fbuf := [] |}))
+    = [mkI OP_MAKE_FUNCTION [fn_name path 0]]
+  /\ strip (fst (cexpr path 0 (EFn [] [SPrint (EVar x_); SAssign x_ (EInt 1)]) {| fid := 0; lreg := 0; fbuf := [] |}))
+    = [mkI OP_MAKE_FUNCTION [fn_name path 0; x_]].
+Proof. intros path. split; reflexivity. Qed.
+(* the semantic theorem is not about an inert environment, and its side condition is necessary *)
+Example C07_ex_free_var_is_observed :
+  call_closure 10 (RClos [] CaptureSemExamples.body1 []) [] CaptureSemExamples.st0
+  = EFail (FUnbound x_) CaptureSemExamples.st0.
+Proof. vm_compute. reflexivity. Qed.
